@@ -79,6 +79,26 @@ func panicValue(i int) (v any, abort bool, broken bool) {
 	return &net.OpError{Op: "read", Err: errPlain}, false, false // OpError without SyscallError
 }
 
+// panicSource hands out its data, then panics on the next Read.
+type panicSource struct {
+	data       []byte
+	runtimeErr bool
+	val        any
+}
+
+func (p *panicSource) Read(b []byte) (int, error) {
+	if len(p.data) > 0 {
+		n := copy(b, p.data)
+		p.data = p.data[n:]
+		return n, nil
+	}
+	if p.runtimeErr {
+		var m map[string]int
+		m["x"] = 1
+	}
+	panic(p.val)
+}
+
 func containsStr(s, sub string) bool {
 	for i := 0; i+len(sub) <= len(s); i++ {
 		if s[i:i+len(sub)] == sub {
@@ -93,7 +113,11 @@ func containsStr(s, sub string) bool {
 func HarnessC15Panic(st any) {
 	s := st.(*c15State)
 	pv := sym.Choose("value", nPanicValues)
-	progress := sym.Choose("progress", 5) // 0 nothing, 1 header only, 2 partial body, 3 flushed only, 4 protocol switch (101) only
+	progress := sym.Choose("progress", 6) // 0 nothing, 1 header only, 2 partial body, 3 flushed only, 4 protocol switch (101) only, 5 body streamed with ReadFrom from a source that panics mid-copy
+	rfWriter := 0
+	if progress == 5 {
+		rfWriter = sym.Choose("rfwriter", 2) // 0: the underlying writer has no io.ReaderFrom (copy loop), 1: it has one (fast path)
+	}
 	val, abort, broken := panicValue(pv)
 	s.behave = func(c fox.Context) {
 		switch progress {
@@ -105,6 +129,8 @@ func HarnessC15Panic(st any) {
 			_ = c.Writer().FlushError()
 		case 4:
 			c.Writer().WriteHeader(http.StatusSwitchingProtocols)
+		case 5:
+			_, _ = c.Writer().ReadFrom(&panicSource{data: []byte("ab"), runtimeErr: pv == 8, val: val})
 		}
 		if pv == 8 {
 			var m map[string]int
@@ -120,7 +146,11 @@ func HarnessC15Panic(st any) {
 	s.sink.recs = nil
 	var g *ghost
 	var escaped any
-	if progress == 3 {
+	if progress == 5 && rfWriter == 1 {
+		g = &ghost{sc: &script{}, hdr: http.Header{}}
+		escaped = panicsWith(func() { s.r.ServeHTTP(richW{g, &capCalls{}}, req) })
+		sym.Cover("panic in the source of a ReadFrom (underlying io.ReaderFrom)")
+	} else if progress == 3 {
 		// a writer offering FlushError: the flush sends the (implicit 200) header
 		g = &ghost{sc: &script{}, hdr: http.Header{}}
 		escaped = panicsWith(func() { s.r.ServeHTTP(richW{g, &capCalls{}}, req) })
@@ -133,8 +163,15 @@ func HarnessC15Panic(st any) {
 	switch progress {
 	case 1, 3, 4:
 		wantFinals = 1
-	case 2:
+	case 2, 5:
 		wantFinals, wantBody = 1, "ab"
+	}
+	untouched := "an already started response (or a broken connection) is left untouched"
+	if progress == 5 && rfWriter == 1 {
+		untouched = "a response started through the underlying writer's ReadFrom, whose source then panicked, is left untouched"
+	}
+	if progress == 5 && rfWriter == 0 {
+		sym.Cover("panic in the source of a ReadFrom (copy loop)")
 	}
 	if abort {
 		sym.Cover("ErrAbortHandler re-raised")
@@ -152,7 +189,7 @@ func HarnessC15Panic(st any) {
 			if broken {
 				sym.Cover("broken connection: nothing written")
 			}
-			sym.Assert(len(g.finals) == wantFinals && string(g.body) == wantBody, "an already started response (or a broken connection) is left untouched")
+			sym.Assert(len(g.finals) == wantFinals && string(g.body) == wantBody, untouched)
 			if wantFinals == 1 && progress == 1 {
 				sym.Assert(g.finals[0] == 202, "the started response keeps its status")
 			}
@@ -273,7 +310,7 @@ func HarnessC15Txn(st any) {
 	// 0 Updates inside a handler, 1 Updates called directly, 2 View inside a handler,
 	// 3 / 4 a single-operation write (Handle / Update) that panics while the route is being built, inside a handler
 	mode := sym.Choose("mode", 5)
-	at := sym.Choose("at", k+1)   // the panic is raised after this many steps
+	at := sym.Choose("at", k+1) // the panic is raised after this many steps
 	ops := make([]int, k)
 	for i := 0; i < k; i++ {
 		ops[i] = sym.Choose("op"+string(rune('0'+i)), nTxnSteps)
